@@ -39,7 +39,12 @@ MANIFEST = dict(
          "and the loaded schema the created one; the same history without intermediate reopening must observe the same "
          "at every prefix; the observed statement kinds of every call are decided by Lean's closedShape and compared "
          "with sqlite3_get_autocommit; create_or_load_database is run on directories holding no / a 1.x / a 2.x / both "
-         "libraries written by the real creators.",
+         "libraries written by the real creators. Round 2: create_or_load / load / database_exists over the directory model Spec/Dir.lean: "
+         "C10_create_or_load_iff (created <-> neither m.db nor Database2/m.db exists, every directory state), "
+         "_existing, _both_layouts (rethrows, nothing created), _creates, _creation_fails (stray p.db), "
+         "C10_dir_load_reports_created, C10_create_or_load_old_counterexample (code before fix 1fcc407); tied on all 81 "
+         "directory shapes (answers + directory afterwards) and by the layout create_database leaves for all versions. "
+         "C10_tracks_v1: the 1.x track model.",
     note="Trusted/limits: durability of committed data is SQLite's and the file system's (sampled, not proved); the "
          "theorem side covers the transaction discipline (nothing pending at close) and the reload/creation decision "
          "logic, not the persistence of bytes; histories are sampled; scratch directories live in /dev/shm (no power-loss "
@@ -50,6 +55,8 @@ MANIFEST = dict(
 TRUSTED_EXTRA = ["harness/djv_monitors.cpp (full observation, reopen with handles re-obtained by id), harness/djv_wrap.cpp "
                  "(statement kinds), tools/monitors_gen.py (history generator), tools/tr_detect.py (translator)"]
 STATELESS = False
+SELF_TEST_ROUND2 = {"seeded/sv2-C10-revert-create-over-existing (reverts fix 1fcc407)":
+                    "caught: create_or_load_database(1.x) reports created on 'm.db zero bytes, Database2/m.db valid' (6 shapes)"}
 SELF_TEST = {"recorded": "2026-09-29, scratch worktree of /repo, quick tier seed 1 (not re-run by the check)", "seeded_changes": {
     "seeded/sv-C10-handle-cache (2.x set_comment keeps the value in the handle)": "caught: observation through held handles differs after close+load",
     "seeded/sv-C10-neighbour-schema (loaded_schema unassigned on the Database2 path)": "caught: created 2.18.0, load answers 1.6.0",
@@ -527,7 +534,7 @@ def tie(ctx):
         },
         "divergences": divergences[:20],
         "violations": vout,
-        "self_test": SELF_TEST,
+        "self_test": dict(SELF_TEST, round2=SELF_TEST_ROUND2),
     }
 
 
